@@ -83,68 +83,96 @@ func randName(rng *rand.Rand, i int) string {
 	}
 }
 
+// one random election input: NodeCount / RandCount, delegations (shuffled), proof height
+func randElectionConfig(rng *rand.Rand) (nc, rc, np, wmode int, ds []*types.PillarDelegation, height uint64) {
+	switch rng.Intn(4) {
+	case 0:
+		nc, rc = 30, 15 // production configuration
+	case 1:
+		nc = 1 + rng.Intn(8)
+		rc = rng.Intn(nc + 1)
+	default:
+		nc = 1 + rng.Intn(40)
+		rc = rng.Intn(nc + 1)
+	}
+	switch rng.Intn(6) {
+	case 0:
+		np = nc
+	case 1:
+		np = nc + 1
+	case 2:
+		np = 1 + rng.Intn(3)
+	case 3:
+		if nc > 1 {
+			np = nc - 1
+		} else {
+			np = 1
+		}
+	default:
+		np = 1 + rng.Intn(60)
+	}
+	wmode = rng.Intn(4)
+	ds = make([]*types.PillarDelegation, np)
+	for i := range ds {
+		var w *big.Int
+		switch wmode {
+		case 0:
+			w = big.NewInt(1000) // all equal: order decided by name only
+		case 1:
+			w = big.NewInt(int64(rng.Intn(3))) // many ties, zero weights
+		case 2:
+			w = big.NewInt(rng.Int63n(1 << 40))
+			if rng.Intn(8) == 0 {
+				w = new(big.Int).Mul(big.NewInt(rng.Int63()), big.NewInt(rng.Int63())) // beyond 64 bits
+			}
+		default:
+			w = big.NewInt(int64(1000 - i))
+		}
+		var a types.Address
+		rng.Read(a[:])
+		ds[i] = &types.PillarDelegation{Name: randName(rng, i), Producing: a, Weight: w}
+	}
+	rng.Shuffle(len(ds), func(i, j int) { ds[i], ds[j] = ds[j], ds[i] })
+	height = BoundaryU64(rng)
+	if rng.Intn(3) == 0 {
+		height = uint64(rng.Intn(100000))
+	}
+	if rng.Intn(25) == 0 {
+		height = (uint64(1) << 63) - 1 // seed+1 wraps
+	}
+
+	return
+}
+
+// the correspondence case of one election answer: the observed rand.Perm tables are handed to the model
+func emitElectionCase(out *Out, nc, rc, np int, height uint64, ds, res []*types.PillarDelegation, tagPrefix string) {
+	seed := int64(height)
+	ps := newPermSet()
+	lenA := np
+	if lenA > nc {
+		lenA = nc
+	}
+	for _, s := range []int64{seed, seed + 1} {
+		for _, k := range []int{lenA, nc, np, np - nc + rc, rc} {
+			ps.add(s, k)
+		}
+	}
+	tag := "full"
+	if np < nc {
+		tag = "fill-up"
+	} else if np == nc {
+		tag = "exact"
+	}
+	out.Case("election", Tup(I64(int64(nc)), I64(int64(rc)), U64(height), delegsTerm(ds), ps.list),
+		Tup(I64(0), delegsTerm(res)), tagPrefix+tag)
+}
+
 // (i) random pillar / delegation configurations through the real SelectProducers
 func runElection(rng *rand.Rand, n int, out *Out, _ []string) {
 	saved := *constants.ConsensusConfig
 	defer func() { *constants.ConsensusConfig = saved }()
 	for it := 0; it < n; it++ {
-		var nc, rc int
-		switch rng.Intn(4) {
-		case 0:
-			nc, rc = 30, 15 // production configuration
-		case 1:
-			nc = 1 + rng.Intn(8)
-			rc = rng.Intn(nc + 1)
-		default:
-			nc = 1 + rng.Intn(40)
-			rc = rng.Intn(nc + 1)
-		}
-		var np int
-		switch rng.Intn(6) {
-		case 0:
-			np = nc
-		case 1:
-			np = nc + 1
-		case 2:
-			np = 1 + rng.Intn(3)
-		case 3:
-			if nc > 1 {
-				np = nc - 1
-			} else {
-				np = 1
-			}
-		default:
-			np = 1 + rng.Intn(60)
-		}
-		wmode := rng.Intn(4)
-		ds := make([]*types.PillarDelegation, np)
-		for i := range ds {
-			var w *big.Int
-			switch wmode {
-			case 0:
-				w = big.NewInt(1000) // all equal: order decided by name only
-			case 1:
-				w = big.NewInt(int64(rng.Intn(3))) // many ties, zero weights
-			case 2:
-				w = big.NewInt(rng.Int63n(1 << 40))
-				if rng.Intn(8) == 0 {
-					w = new(big.Int).Mul(big.NewInt(rng.Int63()), big.NewInt(rng.Int63())) // beyond 64 bits
-				}
-			default:
-				w = big.NewInt(int64(1000 - i))
-			}
-			var a types.Address
-			rng.Read(a[:])
-			ds[i] = &types.PillarDelegation{Name: randName(rng, i), Producing: a, Weight: w}
-		}
-		rng.Shuffle(len(ds), func(i, j int) { ds[i], ds[j] = ds[j], ds[i] })
-		height := BoundaryU64(rng)
-		if rng.Intn(3) == 0 {
-			height = uint64(rng.Intn(100000))
-		}
-		if rng.Intn(25) == 0 {
-			height = (uint64(1) << 63) - 1 // seed+1 wraps
-		}
+		nc, rc, np, wmode, ds, height := randElectionConfig(rng)
 
 		constants.ConsensusConfig = &constants.Consensus{BlockTime: 10, NodeCount: uint8(nc), RandCount: uint8(rc), CountingZTS: types.ZnnTokenStandard}
 		ctx := consensus.NewConsensusContext(time.Unix(1000000000, 0))
@@ -152,25 +180,7 @@ func runElection(rng *rand.Rand, n int, out *Out, _ []string) {
 		in := cloneDelegs(ds)
 		res := algo.SelectProducers(consensus.NewAlgorithmContext(in, &types.HashHeight{Height: height}))
 
-		seed := int64(height)
-		ps := newPermSet()
-		lenA := np
-		if lenA > nc {
-			lenA = nc
-		}
-		for _, s := range []int64{seed, seed + 1} {
-			for _, k := range []int{lenA, nc, np, np - nc + rc, rc} {
-				ps.add(s, k)
-			}
-		}
-		tag := "full"
-		if np < nc {
-			tag = "fill-up"
-		} else if np == nc {
-			tag = "exact"
-		}
-		out.Case("election", Tup(I64(int64(nc)), I64(int64(rc)), U64(height), delegsTerm(ds), ps.list),
-			Tup(I64(0), delegsTerm(res)), tag)
+		emitElectionCase(out, nc, rc, np, height, ds, res, "")
 		out.Count(fmt.Sprintf("election:weights-mode-%d", wmode))
 
 		// ---- the property's own statement on the implementation
